@@ -137,10 +137,22 @@ func propTrack(tr Track) error {
 	}
 	ls := geom.NewLineStringFlat(layout, flat)
 	var buf bytes.Buffer
-	if err := igc.NewEncoder(&buf, igc.A(tr.A)).Encode(ls); err != nil {
+	enc := igc.NewEncoder(&buf, igc.A(tr.A))
+	if err := enc.Encode(ls); err != nil {
 		return fmt.Errorf("encode: %v", err)
 	}
 	text := buf.String()
+	// the same Encoder writes the track again (into the emptied buffer, and once more
+	// behind that): every Encode call writes a complete, self-contained stream
+	buf.Reset()
+	for i := 0; i < 2; i++ {
+		if err := enc.Encode(ls); err != nil {
+			return fmt.Errorf("Encode #%d with the same Encoder: %v", i+2, err)
+		}
+	}
+	if again := buf.String(); again != text+text {
+		return fmt.Errorf("the same Encoder, asked to encode the same track twice more, wrote\n%s\nwant twice\n%s", clip(again), clip(text))
+	}
 	var got *igc.T
 	var rerr error
 	if err := run.Bounded(func() error { got, rerr = igc.Read(strings.NewReader(text)); return nil }); err != nil {
